@@ -119,6 +119,43 @@ fn main() {
                 println!("{} {} {} runs={} steps={} violations={} loghash={:016x}", spec.id, u.world.name(), u.scenario, runs, r.agg.steps, r.found.len(), r.loghash);
             }
         }
+        // which PSET fields the generator populates (a field stuck at zero is a hole in the C07/C08/C14 workload)
+        "fieldcov" => {
+            let n: u64 = argv.get(2).and_then(|s| s.parse().ok()).unwrap_or(20_000);
+            let mut p = prng::Prng::from_u64(7);
+            let mut cov: std::collections::BTreeMap<String, u64> = Default::default();
+            fn walk(prefix: &str, v: &serde_json::Value, cov: &mut std::collections::BTreeMap<String, u64>) {
+                if let serde_json::Value::Object(m) = v {
+                    for (k, x) in m {
+                        let empty = match x {
+                            serde_json::Value::Null => true,
+                            serde_json::Value::Array(a) => a.is_empty(),
+                            serde_json::Value::Object(o) => o.is_empty(),
+                            _ => false,
+                        };
+                        let e = cov.entry(format!("{}.{}", prefix, k)).or_insert(0);
+                        if !empty {
+                            *e += 1;
+                        }
+                    }
+                }
+            }
+            for _ in 0..n {
+                let ps = psetgen::pset(&psetgen::PsetSpec::draw(&mut p));
+                let v = serde_json::to_value(&ps).expect("serde");
+                walk("global", &v["global"], &mut cov);
+                walk("global.tx_data", &v["global"]["tx_data"], &mut cov);
+                for i in v["inputs"].as_array().into_iter().flatten() {
+                    walk("input", i, &mut cov);
+                }
+                for o in v["outputs"].as_array().into_iter().flatten() {
+                    walk("output", o, &mut cov);
+                }
+            }
+            for (k, c) in cov {
+                println!("{:8} {}", c, k);
+            }
+        }
         "corpus-classify" => {
             println!("{}", corpus::classify());
         }
